@@ -6,9 +6,9 @@ from core.run import Acc, finish, rng_for, run_shards, NCPU, h64
 
 PID = "C14"
 RULE = ("a *session* is one index life: in-memory build, first on-disk build, reopen of the same directory, rebuild after a forced data-hash "
-        "mismatch. Every session answers the same query set Q (every typeable fact's own words, every distinct single word of the fact "
+        "mismatch, start after meta.json was lost or damaged, start after a start that was killed at a crash point. Every session answers the same query set Q (every typeable fact's own words, every distinct single word of the fact "
         "vocabulary, 1-3 letter prefixes of the 60 most frequent words, the token sets shared by several constants, upper/title-case and "
-        "and/or/not variants of 60 phrases), each session in its OWN order (sorted, reverse sorted, near-duplicate clusters shuffled, fully shuffled), and the answer vectors "
+        "and/or/not variants of 60 phrases, 320 pairs of a rare word with a 1-3 letter prefix of a common one), each session in its OWN order (sorted, reverse sorted, near-duplicate clusters shuffled, fully shuffled), and the answer vectors "
         "[(description, value, unit) per query] of all sessions of a run must be identical - no reference ranking is assumed. Sessions are "
         "spread over schedule perturbations: repeated builds, processes pinned to 1/2/4/16 CPUs, producer-side jitter between add_document "
         "calls (ANYTHING_VERIF_DELAY hook), competing busy loops (thorough: strace futex delay injection, release build). The hook also "
@@ -37,6 +37,16 @@ def build_queries(facts):
         ws = x.split(" ")
         q += [x.upper(), x.title(), "%s and %s" % (ws[0], ws[-1]), "%s AND %s" % (ws[0], ws[-1]), "%s or %s" % (ws[0], ws[-1]),
               "%s OR %s" % (ws[0], ws[-1]), "not %s" % ws[-1], "NOT %s" % ws[-1]]
+    # a rare word next to a short prefix of a common one, both orders (`di margaret`): two near-tied candidates whose ranking moves
+    # with the term statistics of the index - e.g. when every document is in it twice (seed C14-d)
+    import random
+    r = random.Random(20240917)
+    rare = sorted(w for w, c in words.items() if c <= 2 and len(w) > 3)
+    common = [w for w, _ in words.most_common(40)]
+    for _ in range(160):
+        a, b = r.choice(rare), r.choice(common)[: r.choice([1, 2, 2, 3])]
+        if b != "to":
+            q += ["%s %s" % (b, a), "%s %s" % (a, b)]
     seen, out = set(), []
     for x in q:
         if x not in seen:
@@ -119,6 +129,23 @@ def shard(p):
             if s.get("delay"):
                 env["ANYTHING_VERIF_DELAY"] = s["delay"]
             argv = list(s.get("prefix") or []) + [p["bin"]]
+            if s.get("crash") and home:
+                # a start that is killed at a named point (not a session: it answers nothing); the next session finds what it left
+                try:
+                    subprocess.run([p["bin"]], input=(json.dumps({"op": "db", "mode": "disk"}) + "\n").encode(), env=dict(os.environ, XDG_DATA_HOME=home, ANYTHING_VERIF_CRASH=s["crash"]),
+                                   stdout=subprocess.DEVNULL, stderr=subprocess.DEVNULL, timeout=300)
+                except Exception as ex:
+                    acc.inconc("crashing start: %r" % (ex,))
+                continue
+            if s.get("meta") and home:
+                mp = os.path.join(home, "facts", "meta.json")
+                try:
+                    if s["meta"] == "lost":
+                        os.unlink(mp)
+                    else:
+                        open(mp, "w").write("{ not json")
+                except Exception as ex:
+                    acc.inconc("cannot damage meta.json: %r" % (ex,))
             if s.get("mismatch") and home:
                 mp = os.path.join(home, "facts", "meta.json")
                 try:
@@ -163,7 +190,11 @@ def run(tier, seed):
     def disk_seq(tag, **kw):
         return [dict(mode="disk", label=tag + ":first-build", **kw), dict(mode="disk", label=tag + ":reopen", **kw),
                 dict(mode="disk", label=tag + ":reopen2", **kw), dict(mode="disk", label=tag + ":rebuild-after-hash-mismatch", mismatch=True, **kw),
-                dict(mode="disk", label=tag + ":reopen-after-rebuild", **kw)]
+                dict(mode="disk", label=tag + ":reopen-after-rebuild", **kw),
+                dict(mode="disk", label=tag + ":start-after-meta-lost", meta="lost", **kw), dict(mode="disk", label=tag + ":reopen-after-meta-lost", **kw),
+                dict(mode="disk", label=tag + ":start-after-meta-garbage", meta="garbage", **kw),
+                dict(mode="disk", label=tag + ":killed-start", crash=["after_commit", "after_reload", "before_write_meta", "meta_created_empty", "before_commit", "deleted_all"][h64(tag) % 6], mismatch=True, **kw),
+                dict(mode="disk", label=tag + ":start-after-killed-start", **kw), dict(mode="disk", label=tag + ":reopen-after-killed-start", **kw)]
     nrounds = 3 if tier == "quick" else 40
     for r in range(nrounds):
         for cpus in ("0", "0-1", "0-3", "0-15"):
@@ -196,6 +227,13 @@ def run(tier, seed):
     acc.counters.update({"sessions": len(sessions), "queries_per_session": len(queries), "tie_queries": len(ref_ties or []),
                          "distinct_answer_vectors": len(digests), "distinct_segment_layouts": len(layouts)})
     modes = collections.Counter(s["label"].split("#")[0].split(":", 1)[0] + ":" + s["label"].split(":")[1].split("#")[0] for s in sessions)
+    # structural: every session's index holds as many live documents as the reference build (whatever its segment layout)
+    live0 = sum(m - dl for m, dl in layout0)
+    odd = [s for s in sessions if sum(m - dl for m, dl in s["layout"]) != live0]
+    acc.counters["live_documents_in_the_reference_index"] = live0
+    if odd:
+        acc.violate("c14:index-size-differs-between-sessions", "session %r serves an index with %d live documents in segments %s; the reference in-memory build has %d" % (
+            odd[0]["label"], sum(m - dl for m, dl in odd[0]["layout"]), list(odd[0]["layout"]), live0), {"sessions": [s["label"] for s in odd][:40]})
     if len(digests) > 1:
         # find which queries differ: re-run one deviating kind of session with vectors kept
         major = digests.most_common(1)[0][0]
